@@ -15,6 +15,10 @@ def _is_pow2(n):
     return n >= 1 and (n & (n - 1)) == 0
 
 
+class ForeignRows(Exception):
+    """the explainer's background data contains rows that never were in its stream (state shared between objects)"""
+
+
 class BatchScenario:
     def __init__(self, **kw):
         self.cls = kw.get("cls", "batch")              # "batch" | "interval"
@@ -158,6 +162,9 @@ def run(sc, tape_mode="log", script=None, provider=None):
 
     def storage_rows():
         xs, ys = sto.get_data()
+        if any(nm not in r for r in xs for nm in names):
+            raise ForeignRows("the storage of the explainer holds rows that are not observations of its own stream: %r" % (
+                [dict(r) for r in xs if any(nm not in r for nm in names)][:2],))
         return [[red(r[nm]) for nm in names] for r in xs], list(ys)
 
     n_eff = sc.n_override if sc.n_override is not None else sc.n_inner
